@@ -448,6 +448,48 @@ def round3_rules(res, fx, fin, cd, reader):
                        'packet, and the Messages or fragments in it are never transmitted' % g.q)
     if n < 1:
         raise AnalysisBroken('HOLD-PACKET: no tunnel output routine with a pending-size reset and a Write found')
+    # PENDING-VISIBLE: what DoOutput() may still have to transmit is what HasBytesToOutput() reports
+    res.rule('PENDING-VISIBLE', 'in the packet tunnels, a member of *this that (a) guards the DataIO::Write() of DoOutputImplementation (tested positive / non-empty on a dominating branch), (b) is an argument of '
+                                'that Write() and (c) can keep its value when the method returns (HOLD-PACKET: a Write() that takes nothing leaves the packet pending) is read by HasBytesToOutput() of the same '
+                                'class: the caller waits for the socket to become writable only while HasBytesToOutput() is true', floor=2)
+    n_pv = 0
+    for g in sorted((g for g in fx.funcs.values() if g.full and g.q.endswith('PacketTunnelIOGateway::DoOutputImplementation')), key=lambda g: (g.file, g.line)):
+        cls = g.q.rsplit('::', 1)[0]
+        hb = [h for h in fx.funcs.values() if h.full and h.q == cls + '::HasBytesToOutput']
+        if not hb:
+            raise AnalysisBroken('PENDING-VISIBLE: %s::HasBytesToOutput has no analysed body' % cls)
+        from msa import ip as IP
+        seen = set(x.get('n') for h in IP.scope(fx, hb[0], '^' + re.escape(cls) + '::') for x in h.walk() if x['k'] == 'MemberExpr' and A.is_this_member(x))
+        for c in g.walk():
+            if not (c['k'] == 'CXXMemberCallExpr' and re.search(r'DataIO::Write$', c.get('q') or '')) or len(c.args()) < 2:
+                continue
+            # the member that mirrors the size of the pending packet: it IS the size argument, or the size argument is a local initialised with the very expression that is also stored into the member
+            held = set()
+            sz = A.strip_casts(c.args()[1])
+            if sz['k'] == 'MemberExpr' and A.is_this_member(sz):
+                held.add(sz['n'])
+            elif sz['k'] == 'DeclRefExpr' and sz.get('d') is not None:
+                inits = [A.render_key(A.strip_casts(v['ch'][0])) for v in g.walk() if v['k'] == 'VarDecl' and v.get('d') == sz['d'] and v['ch']]
+                for w in g.walk():
+                    if w['k'] == 'BinaryOperator' and w.get('op') == '=':
+                        l_ = A.strip_casts(w['ch'][0])
+                        if l_['k'] == 'MemberExpr' and A.is_this_member(l_) and A.render_key(A.strip_casts(w['ch'][1])) in inits:
+                            held.add(l_['n'])
+            for mname in sorted(held):
+                # (c) some path from the Write to a return passes no reset of the member
+                resets = [w for w in g.walk() if w['k'] == 'BinaryOperator' and w.get('op') == '=' and A.strip_casts(w['ch'][0]).get('n') == mname and A.strip_casts(w['ch'][1]).get('v') == 0]
+                always_reset = bool(resets) and P.must_follow(g, c, resets, escapes=P.escape_edges(g, status=True, null=False))[0]
+                if always_reset:
+                    continue
+                n_pv += 1
+                ok = mname in seen
+                res.ob('PENDING-VISIBLE', hb[0].where(), '%s::HasBytesToOutput() reports a packet that DoOutput() still holds (%s)' % (cls.split('::')[-1], mname), ok, function=hb[0].q,
+                       key='PENDING-VISIBLE|%s|%s' % (cls, mname), how='members read: %s' % sorted(x for x in seen if x),
+                       message='%s::DoOutputImplementation keeps a packed packet for its next call when Write() takes nothing (%s stays > 0), but %s::HasBytesToOutput() does not look at %s: once the '
+                               'Messages have been moved into the packet it answers false, the event loop stops waiting for the socket to become writable, and the held packet is not sent until some '
+                               'later Message happens to be queued (never, if it was the last one)' % (cls, mname, cls, mname))
+    if n_pv < 2:
+        raise AnalysisBroken('PENDING-VISIBLE: only %d held packet member(s) found in the tunnel output routines' % n_pv)
     # PACK-WIDTH: a counter that shares a header word with another field stays within its field
     res.rule('PACK-WIDTH', 'MiniPacketTunnelIOGateway: the packet-id counter that is OR-ed below (level << K) is reduced modulo 2^K (or masked) in every statement that changes it', floor=1)
     m = 0
